@@ -42,6 +42,7 @@ def dispatch (op : String) (args : List String) (impl : String) : Answer :=
   | "C16.tx" => c16Tx args impl
   | "C16.out" => c16Obj args impl
   | "C16.utxo" => c16Obj args impl
+  | "C16.utxos" => c16List args impl
   | "C15.str" => c15Str args impl
   | "C15.key" => c15Key args impl
   | "C17.rt" => c17Rt args impl
